@@ -49,6 +49,8 @@ struct Resolver {
     errors: Vec<String>,
     /// Definitions at which a dependency cycle was found.
     cyclic: BTreeSet<Id>,
+    /// Long names of base units, mapped to the base unit that defines them.
+    base_long_names: BTreeMap<Id, Id>,
 }
 
 impl Resolver {
@@ -75,6 +77,9 @@ impl Resolver {
                 name: name.clone(),
             };
             if self.input.contains_key(&id) {
+                // A base unit's long name (`meter`) only exists once the base
+                // unit itself (`m`) has been loaded.
+                let id = self.base_long_names.get(&id).cloned().unwrap_or(id);
                 self.visit(&id);
                 return true;
             }
@@ -295,6 +300,7 @@ pub(crate) fn load_defs(ctx: &mut Context, defs: Defs) -> Vec<String> {
         categories: BTreeMap::new(),
         errors: Vec::new(),
         cyclic: BTreeSet::new(),
+        base_long_names: BTreeMap::new(),
     };
     for DefEntry {
         name,
@@ -337,6 +343,19 @@ pub(crate) fn load_defs(ctx: &mut Context, defs: Defs) -> Vec<String> {
                 name,
             },
         };
+        if let Def::BaseUnit {
+            long_name: Some(ref long_name),
+        } = *def
+        {
+            let long_name = resolver.intern(long_name);
+            resolver.base_long_names.insert(
+                Id {
+                    namespace: Namespace::Unit,
+                    name: long_name,
+                },
+                id.clone(),
+            );
+        }
         if let Some(doc) = doc {
             resolver.docs.insert(id.clone(), doc);
         }
